@@ -131,7 +131,7 @@ Section Conn.
       end
     end.
 
-  (* receive(): initial authorization, TLS admission, registration, loop, deferred deregistration and close *)
+  (* receive(): initial authorization, TLS entry, registration, loop, deferred deregistration and close *)
   Definition initial_cstate (ss : sstate) (tls : option (list bytes)) : cstate :=
     {| cs_auth := match cfg_get (ss_config ss) requirepass_key with Some _ => false | None => true end;
        cs_db := 0; cs_user := []; cs_pass := None; cs_tls := tls |}.
